@@ -36,7 +36,7 @@ for _f in sorted(os.listdir(_d)):
 # Thread-compatibility supplement: several threads, each with PRIVATE objects of the property's
 # container family, under ThreadSanitizer (harness/mt_private.c).  Hidden shared state in the library
 # (static scratch nodes, cached pointers) breaks "operations on independent objects are independent".
-_MTP = {'C01': 'trees', 'C02': 'trees', 'C03': 'hash', 'C07': 'heap', 'C08': 'map', 'C09': 'vector',
+_MTP = {'C01': 'trees', 'C02': 'trees', 'C03': 'hash', 'C07': 'heap', 'C08': 'map', 'C09': 'vector', 'C11': 'vector',
         'C10': 'string', 'C12': 'dlist', 'C13': 'slist', 'C14': 'array'}
 for _pid, _fam in _MTP.items():
     if _pid in CHECKS:
